@@ -93,7 +93,9 @@ func (obj JsonWebEncryption) computeAuthData() []byte {
 	}
 
 	output := []byte(protected)
-	if obj.aad != nil {
+	// An empty AAD is the same as no AAD, see RFC 7516 section 5.1 step 14,
+	// and it is not serialized, so it must not change the authenticated data.
+	if len(obj.aad) > 0 {
 		output = append(output, '.')
 		output = append(output, []byte(base64URLEncode(obj.aad))...)
 	}
